@@ -114,9 +114,9 @@ func (r *Run) Sub() *Run {
 	return s
 }
 
-func (r *Run) Rule(s string)           { r.rule = s }
-func (r *Run) Assume(s ...string)      { r.assumptions = append(r.assumptions, s...) }
-func (r *Run) Extra(k string, v any)   { r.mu.Lock(); r.extra[k] = v; r.mu.Unlock() }
+func (r *Run) Rule(s string)               { r.rule = s }
+func (r *Run) Assume(s ...string)          { r.assumptions = append(r.assumptions, s...) }
+func (r *Run) Extra(k string, v any)       { r.mu.Lock(); r.extra[k] = v; r.mu.Unlock() }
 func (r *Run) SetDeadline(d time.Duration) { r.deadline = r.start.Add(d) }
 
 // Expired reports whether the internal wall-clock budget is used up. A harness
